@@ -11,6 +11,7 @@ pub mod ir;
 pub mod exec;
 pub mod data;
 pub mod s_dp;
+pub mod s_dpagg;
 pub mod s_fn;
 pub mod s_inj;
 pub mod s_filter;
@@ -64,6 +65,7 @@ fn streams() -> Vec<(&'static str, GenFn, EvalFn)> {
         ("fnimg", s_fn::gen_img, s_fn::eval_img),
         ("dpevent", s_dp::gen_event_case, s_dp::eval_event_case),
         ("dpquery", s_dp::gen_query, s_dp::eval_query),
+        ("dpagg", s_dpagg::gen, s_dpagg::eval),
     ]
 }
 
